@@ -634,6 +634,9 @@ class Server(base_server.BaseServer):
 
     def _handle_ack(self, eio_sid, namespace, id, data):
         """Handle ACK packets from the client."""
+        if not isinstance(data, list):
+            # (a string or an object would be taken apart into arguments)
+            raise ValueError('The payload of an acknowledgement is a list.')
         namespace = namespace or '/'
         sid = self.manager.sid_from_eio_sid(eio_sid, namespace)
         self.logger.info('received ack from %s [%s]', sid, namespace)
